@@ -581,6 +581,57 @@ Section Agreement.
       ands; try reflexivity. unfold Keys.settled. cbn. ands; reflexivity.
   Qed.
 
+  (* keyNextSync's guard: whatever happens next (any event, admissible or not, any flag), a pending
+     pair is never REPLACED by another one: it stays, or keysNext becomes nil (swapped by
+     keyCheckSync, cancelled by keyCheckRevert, or the Session is replaced by a new one) *)
+  Theorem pending_pair_never_replaced : forall e s k k',
+    c_next (cl s) = Some k -> c_next (cl (step e s)) = Some k' -> k' = k.
+  Proof.
+    intros e [[cp cpb cs cn] [sr sp ss] up dn w cseen sseen ch] k k' N. cbn [cl c_next] in N. subst cn.
+    destruct e;
+      destruct up as [[?|?|? ?|? ?]|]; destruct dn as [[?| |?]|]; destruct w; destruct sr; destruct ch;
+      cbn; unfold busy, send, srv_handle, key_session_sync, chan_up, chan_rekey_up, key_check_sync; cbn;
+      repeat match goal with
+             | |- context [if ?x then _ else _] => destruct x; cbn
+             end;
+      intros E; try discriminate E; injection E as E; symmetry; exact E.
+  Qed.
+
+  (* ... so finding (a) heals in exactly the same way when the re-key roll fires AGAIN on the very next
+     exchange: keyNextSync refuses, an empty Packet goes out, the client swaps to the pair the server
+     already uses (k, not k2) *)
+  Theorem reply_lost_heals_when_roll_fires_again : forall s k k2 q0 q,
+    settled s ->
+    let lost := run [RekeySend k; RekeyRecv q0; ReplyLost] s in
+    let s' := run [RekeySend k2; RekeyRecv q; ReplyRecv] lost in
+    let old := c_share (cl s) in
+    let new := fill_shared old (dh k (pub (s_priv (sv s)))) in
+    settled s' /\ c_share (cl s') = new /\ s_share (sv s') = new /\ c_priv (cl s') = k /\
+    c_seen s' = deliver (xor_op (xor_op q new) old) (c_seen s) /\ s_seen s' = s_seen s.
+  Proof.
+    intros [[cp cpb cs cn] [sr sp ss] up dn w cseen sseen ch] k k2 q0 q S.
+    destruct S as [W [U [D [R [N [A [P C]]]]]]].
+    cbn [cl sv upw dnw waiting c_next c_share c_pub c_priv s_reg s_priv s_share chn] in *.
+    subst w up dn sr cn ss cpb ch. cbv zeta.
+    set (new := fill_shared cs (dh k (pub sp))).
+    assert (Hn : fill_shared cs (dh sp (pub k)) = new) by (unfold new; rewrite dh_comm; reflexivity).
+    match goal with |- context [run [RekeySend k; RekeyRecv q0; ReplyLost] ?s0] =>
+      assert (E1 : run [RekeySend k; RekeyRecv q0; ReplyLost] s0 =
+                   mkSt (mkC cp (pub sp) cs (Some k)) (mkS true sp new) None None false cseen sseen None)
+    end.
+    { unfold Keys.run. cbn [fold_left]. cbn. unfold srv_handle. cbn. rewrite zlist_eqb_refl. cbn. rewrite Hn. reflexivity. }
+    rewrite E1.
+    match goal with |- context [run [RekeySend k2; RekeyRecv q; ReplyRecv] ?s0] =>
+      assert (E2 : run [RekeySend k2; RekeyRecv q; ReplyRecv] s0 =
+                   mkSt (mkC k (pub sp) new None) (mkS true sp new) None None false
+                        (deliver (xor_op (xor_op q new) cs) cseen) sseen None)
+    end.
+    { unfold Keys.run. cbn [fold_left]. cbn. unfold srv_handle. cbn. unfold key_check_sync. cbn.
+      Local Transparent xor_op. cbn. Local Opaque xor_op. reflexivity. }
+    rewrite E2. cbn. ands; try reflexivity.
+    unfold Keys.settled. cbn. ands; reflexivity.
+  Qed.
+
   (* a failed write of the announcement leaves both ends exactly where they were *)
   Theorem write_fail_reverts : forall s k,
     waiting s = false -> chn s = None -> c_next (cl s) = None ->
